@@ -1062,6 +1062,22 @@ package argmapper
 //@   modifies nothing
 //@   loop 1 invariant forall(j, int, imp(0 <= j && j < len(vs.values), vs.values[j] != nil))
 //@   loop 1 invariant fresh(result) && len(result) == len(vs.values) && forall(j, int, imp(0 <= j && j < idx1, result[j].Name == vs.values[j].Name && result[j].Type == vs.values[j].Type && result[j].Subtype == vs.values[j].Subtype && result[j].Value == vs.values[j].Value))
+// Signature / SignatureValues: the rendering of a set as a Go parameter list (C15 C14).
+// A lifted set keeps value j at position j (established by newValueSet: liftedVS).
+//@ ghost vsSlots(vs *ValueSet) bool = forall(j, int, imp(0 <= j && j < len(vs.values), vs.values[j] != nil && imp(vs.isLifted, vs.values[j].index == j)))
+//@ func (*ValueSet).Signature
+//@   requires vs == nil || vsSlots(vs)
+//@   ensures [nil-or-empty-set-has-no-parameters] imp(vs == nil || (!vs.isLifted && vs.structType == nil), len(result) == 0)
+//@   ensures [struct-form-is-the-struct-type] imp(vs != nil && !vs.isLifted && vs.structType != nil, len(result) == 1 && result[0] == vs.structType)
+//@   ensures [lifted-form-is-the-value-types-in-order] imp(vs != nil && vs.isLifted, len(result) == len(vs.values) && forall(j, int, imp(0 <= j && j < len(vs.values), result[j] == vs.values[j].Type)))
+//@   modifies nothing
+//@   loop 1 invariant vs != nil && vs.isLifted && vsSlots(vs) && fresh(result) && len(result) == len(vs.values) && forall(j, int, imp(0 <= j && j < idx1, result[j] == vs.values[j].Type))
+//@ func (*ValueSet).SignatureValues
+//@   requires vs == nil || (vsSlots(vs) && forall(j, int, imp(0 <= j && j < len(vs.values), imp(!valid(vs.values[j].Value), vs.values[j].Type != nil))))
+//@   ensures [nil-or-empty-set-has-no-values] imp(vs == nil || vs.structType == nil, len(result) == 0)
+//@   ensures [lifted-form-is-the-values-in-order-zero-when-unset] imp(vs != nil && vs.structType != nil && vs.isLifted, len(result) == len(vs.values) && forall(j, int, imp(0 <= j && j < len(vs.values), result[j] == ite(valid(vs.values[j].Value), vs.values[j].Value, zeroOf(vs.values[j].Type)))))
+//@   ensures [struct-form-is-one-value] imp(vs != nil && vs.structType != nil && !vs.isLifted, len(result) == 1)
+//@   loop 1 invariant vs != nil && vs.isLifted && vsSlots(vs) && fresh(result) && len(result) == len(vs.values) && forall(j, int, imp(0 <= j && j < len(vs.values), imp(!valid(vs.values[j].Value), vs.values[j].Type != nil))) && forall(j, int, imp(0 <= j && j < idx1, result[j] == ite(valid(vs.values[j].Value), vs.values[j].Value, zeroOf(vs.values[j].Type))))
 //@ func (*ValueSet).TypedSubtype
 //@   requires vs != nil && forall(j, int, imp(0 <= j && j < len(vs.values), vs.values[j] != nil))
 //@   ensures [exact-type-and-subtype] imp(result != nil, result.Type == t && result.Subtype == st && exists(j, int, 0 <= j && j < len(vs.values) && vs.values[j] == result))
